@@ -44,7 +44,8 @@ CONSTANTS
     K,            \* deviation budget of the adversary
     Kinds,        \* enabled deviation kinds (strings, see Adversary section)
     Fixes,        \* repairs present in the modelled code
-    FullOrder     \* TRUE: every cross-sender delivery order; FALSE: honest senders first
+    FullOrder,    \* TRUE: every cross-sender delivery order; FALSE: honest senders first
+    Plans         \* admissible per-message-state caps on the deviations spent (sequences of 6)
 
 Members == 1..N
 Ids     == 0..(N + 1)
@@ -55,9 +56,10 @@ VARIABLES
     mem,       \* mem[h]: view of honest member h
     out,       \* out[m]: messages broadcast by m in the current message state
     budget,    \* deviations the adversary may still spend
+    plan,      \* cap on the deviations spent in each of the 6 message states
     dord       \* cross-sender delivery order used by the last Receive (<<>> otherwise)
 
-vars == <<corrupt, pos, mem, out, budget, dord>>
+vars == <<corrupt, pos, mem, out, budget, plan, dord>>
 
 Honest == Members \ corrupt
 
@@ -169,7 +171,7 @@ I2(h, m) ==
 I3(h, m) ==
     [mem |-> m,
      out |-> << Msg(h, h, "shares", [j \in Members |-> IF j # h /\ j \in m.eph THEN "ok" ELSE "absent"]),
-                Msg(h, h, "commits", "ok") >>]
+                Msg(h, h, "commits", <<"ok">>) >>]
 
 (* State 4  commitmentsVerificationState.Initiate                          *)
 (*          MarkInactiveMembers(shares, commitments);                      *)
@@ -183,7 +185,7 @@ I4(h, m) ==
         a0 == [v |-> [v0 EXCEPT !.shm = shm, !.snap = Op(v0)], acc |-> {}, abort |-> FALSE]
         step(a, c) ==
             IF a.abort THEN a
-            ELSE IF c.p = "wrong"                               \* isValidMemberCommitmentsMessage
+            ELSE IF c.p = <<"wrong">>                           \* isValidMemberCommitmentsMessage
             THEN [a EXCEPT !.v = MarkDQ(@, c.claim)]
             ELSE LET a1 == [a EXCEPT !.v.com = @ \cup {c.claim}] IN
                  IF c.claim \notin DOMAIN shm THEN a1            \* "cannot find shares message"
@@ -362,7 +364,7 @@ SeqChoices(c, kind, choices, silentKind, b) ==
         none == IF Has(silentKind) /\ b >= 1 THEN { << <<>>, 1 >> } ELSE {}
         two == IF Has("dup")
                THEN { << <<mk(x[1]), mk(y[1])>>, x[2] + y[2] + 1 >> :
-                        x \in {z \in choices : z[2] + 1 <= b}, y \in {z \in choices : z[2] + 1 <= b} }
+                        x \in {z \in choices : z[2] + 1 <= b}, y \in {z \in choices : z[2] <= 1} }
                ELSE {}
     IN one \cup none \cup {z \in two : z[2] <= b}
 
@@ -390,7 +392,8 @@ ShareChoices(c, b) ==
                   /\ \A j \in Members \ {c} : f[j] \in ShareVals}
         cost(f) == Cardinality({j \in Members \ {c} : f[j] # "ok"})
     IN {<<f, cost(f)>> : f \in {g \in fs : cost(g) <= b}}
-CommitChoices == {<<"ok", 0>>} \cup (IF Has("cm.wrong") THEN {<<"wrong", 1>>} ELSE {})
+\* (the payload is a 1-tuple so that it is comparable with a shares payload)
+CommitChoices == {<< <<"ok">>, 0>>} \cup (IF Has("cm.wrong") THEN {<< <<"wrong">>, 1>>} ELSE {})
 
 \* accusation / reveal payloads: sets of [id, ok] with distinct ids
 EntrySets(ids, b) ==
@@ -433,7 +436,7 @@ AdvChoices(c, b) ==
       [] StageName = "A3" ->
             LET sh == SeqChoices(c, "shares", ShareChoices(c, b), "sh.none", b)
                 cm == SeqChoices(c, "commits", CommitChoices, "cm.none", b)
-            IN WithJunk(c, "commits", "ok",
+            IN WithJunk(c, "commits", <<"ok">>,
                         {z \in { << x[1] \o y[1], x[2] + y[2] >> : x \in sh, y \in cm } : z[2] <= b}, b)
       [] StageName = "A4" ->
             WithJunk(c, "acc4", {}, SeqChoices(c, "acc4", AccChoices(c, b), "acc.silent", b), b)
@@ -445,12 +448,17 @@ AdvChoices(c, b) ==
       [] StageName = "A10" ->
             WithJunk(c, "rev", {}, SeqChoices(c, "rev", RevChoices(c, b), "rev.silent", b), b)
 
+AdvStageNo == CASE StageName = "A1" -> 1 [] StageName = "A3" -> 2 [] StageName = "A4" -> 3
+                 [] StageName = "A7" -> 4 [] StageName = "A8" -> 5 [] StageName = "A10" -> 6
+Cap == IF budget < plan[AdvStageNo] THEN budget ELSE plan[AdvStageNo]
+
 -----------------------------------------------------------------------------
 Init ==
     /\ corrupt \in CorruptSets
     /\ mem = [h \in Members |-> EmptyMem]
     /\ out = [m \in Members |-> <<>>]
     /\ budget = K
+    /\ plan \in Plans
     /\ dord = <<>>
     /\ pos = NextPos(1, 0, mem, corrupt)
 
@@ -462,7 +470,7 @@ Apply(h, r) ==
        /\ out' = [out EXCEPT ![h] = r.out]
        /\ pos' = NextPos(pos[1], h, mm, corrupt)
        /\ dord' = <<>>
-       /\ UNCHANGED <<corrupt, budget>>
+       /\ UNCHANGED <<corrupt, budget, plan>>
 
 At(name) == StageName = name /\ pos[2] \in Honest
 
@@ -495,18 +503,18 @@ Receive ==
           IN /\ mem' = mm
              /\ pos' = NextPos(pos[1], h, mm, corrupt)
              /\ dord' = (IF OrderSensitive THEN o ELSE <<>>)
-             /\ UNCHANGED <<corrupt, out, budget>>
+             /\ UNCHANGED <<corrupt, out, budget, plan>>
 
 Adversary ==
     /\ IsAdvStage(pos[1])
     /\ pos[2] \in corrupt
     /\ LET c == pos[2] IN
-       /\ \E ch \in (IF Dead(c) THEN { << <<>>, 0 >> } ELSE AdvChoices(c, budget)) :
+       /\ \E ch \in (IF Dead(c) THEN { << <<>>, 0 >> } ELSE AdvChoices(c, Cap)) :
              /\ out' = [out EXCEPT ![c] = ch[1]]
              /\ budget' = budget - ch[2]
        /\ pos' = NextPos(pos[1], c, mem, corrupt)
        /\ dord' = <<>>
-       /\ UNCHANGED <<corrupt, mem>>
+       /\ UNCHANGED <<corrupt, mem, plan>>
 
 Next ==
     \/ P1_Initiate \/ P2_Initiate \/ P3_Initiate \/ P4_Initiate \/ P5_Initiate \/ P6_Initiate
